@@ -139,6 +139,15 @@ func TestVerif_C07(t *testing.T) {
 	for _, l := range []int{254, 255, 256, 1000, 8192, 8193} {
 		names = append(names, strings.Repeat("n", l))
 	}
+	// the limit is 255 BYTES: multibyte names whose character count and byte count fall on
+	// different sides of it (2-, 3- and 4-byte UTF-8 sequences)
+	for _, u := range []string{"\u00e9", "\u20ac", "\U0001F600"} {
+		for _, nb := range []int{252, 254, 255, 256, 258, 260, 510, 1020} {
+			k := nb / len(u)
+			names = append(names, strings.Repeat(u, k), strings.Repeat("a", nb-k*len(u))+strings.Repeat(u, k))
+		}
+		names = append(names, strings.Repeat(u, 255), strings.Repeat(u, 256))
+	}
 	names = append(names, "..", "../top", "a/../../top", "sub/../a", strings.Repeat("../", 50)+"top", "a\x00b", "..\\top")
 	rng := evid.Rng(7)
 	for i := 0; i < 100; i++ {
